@@ -209,7 +209,9 @@ def run_batch(vx, cases, np, timeout=120, env_extra=None, tscale=1):
         if k == len(res): break
         bad = res[k]
         if bad.status == 'notrun' and k == 0:
-            bad.status = 'crash'; bad.detail = 'job did not start: ' + status + ' ' + out[-2000:]
+            san = 'AddressSanitizer' in out or 'runtime error:' in out or status in ('exit55', 'exit56')
+            # a sanitizer report is read from its head (error kind and frames), anything else from its tail
+            bad.status = 'asan' if san else 'crash'; bad.detail = 'job did not start: ' + status + ' ' + (out[:6000] if san else out[-2000:])
             done.append(bad); todo = todo[k + 1:]; continue
         if bad.status == 'notrun':
             # job died between cases (should not happen); blame nothing, rerun the rest
